@@ -245,7 +245,9 @@ def _cut(rng, data):
         t, cls = hi + pd.Timedelta(days=float(rng.uniform(0, 500))), "after-data"
     else:
         t, cls = lo + span * float(rng.random()), "inside"
-    t = pd.Timestamp(t).floor("s") if cls in ("inside", "before-data", "after-data") else pd.Timestamp(t)
+    t = pd.Timestamp(t)
+    if cls in ("inside", "before-data", "after-data"):
+        t = t.tz_convert("UTC").floor("s").tz_convert(data.index.tz)     # floor on the UTC clock: safe on DST days
     if rng.random() < 0.2:
         t = t.tz_convert("UTC")
     if rng.random() < 0.15:
